@@ -332,9 +332,9 @@ PROPS["C11"] = {
         ("c11_maps_znn_p3_triu", dict(stubs=True, unit=_MAPS_UNIT, inst="f64 small ints (values only copied)", bounds="cones [Zero1,NN2], P full triu, A 3x2 nnz=3, triu", oracle=_MAPS_OR, timeout=1200, mem_gb=20)),
         ("c11_maps_znn_p2_tril", dict(stubs=True, unit=_MAPS_UNIT, inst="f64", bounds="cones [Zero1,NN2], P missing (1,1), tril", oracle=_MAPS_OR, timeout=1200, mem_gb=20)),
         ("c11_maps_znn_p0_triu", dict(stubs=True, rot=True, unit=_MAPS_UNIT, inst="f64", bounds="cones [Zero1,NN2], empty P, triu", oracle=_MAPS_OR, timeout=1200, mem_gb=20)),
-        ("c11_maps_znn_p4_tril", dict(stubs=True, rot=True, unit=_MAPS_UNIT, inst="f64", bounds="cones [Zero1,NN2], P only (0,1), tril", oracle=_MAPS_OR, timeout=1200, mem_gb=20)),
+        ("c11_maps_znn_p4_tril", dict(stubs=True, tier="thorough", unit=_MAPS_UNIT, inst="f64", bounds="cones [Zero1,NN2], P only (0,1), tril", oracle=_MAPS_OR, timeout=3600, mem_gb=20)),
         ("c11_maps_nnsoc3_p1_triu", dict(stubs=True, unit=_MAPS_UNIT, inst="f64", bounds="cones [NN1,SOC3] (dense 3x3 block), diagonal P, triu", oracle=_MAPS_OR, timeout=1800, mem_gb=20)),
-        ("c11_maps_nnsoc3_p5_tril", dict(stubs=True, rot=True, unit=_MAPS_UNIT, inst="f64", bounds="cones [NN1,SOC3], P only (1,1), tril", oracle=_MAPS_OR, timeout=1800, mem_gb=20)),
+        ("c11_maps_nnsoc3_p5_tril", dict(stubs=True, tier="thorough", unit=_MAPS_UNIT, inst="f64", bounds="cones [NN1,SOC3], P only (1,1), tril", oracle=_MAPS_OR, timeout=5400, mem_gb=20)),
         ("c11_maps_soc5_p0_triu", dict(stubs=True, unit=_MAPS_UNIT_S, inst="f64", bounds="cones [SOC5] (sparse expansion: 2 extra rows/columns), empty P, triu, one A pattern", oracle=_MAPS_OR + "; u, v columns and expansion diagonal at their recorded positions", timeout=2400, mem_gb=24)),
         ("c11_maps_soc2soc5_p0_triu", dict(stubs=True, unit=_MAPS_UNIT_S, inst="f64", bounds="cones [SOC2 (dense 2x2 block), SOC5 (sparse expansion)], empty P, triu, one A pattern", oracle="same", timeout=3000, mem_gb=24)),
         ("c11_maps_soc5_p2_tril", dict(stubs=True, tier="thorough", unit=_MAPS_UNIT_S, inst="f64", bounds="cones [SOC5], P missing (1,1), tril", oracle="same", timeout=3600, mem_gb=24)),
@@ -345,7 +345,7 @@ PROPS["C11"] = {
             oracle="at refactor the engine's copy == the KKT matrix (every P/A/Hs/diagonal write reached it); afterwards KKT holds the new P,A and an UNregularised diagonal; engine got +eps/-eps by sign; sign vector")),
         ("c11_kkt_sync_zero1_nn1_noreg", dict(stubs=True, nofloat=True, rot=True, unit="same", inst="f64", bounds="cones [Zero1,NN1], regularisation off", timeout=2400, mem_gb=24, oracle="same, no shift")),
     ]) + [dict(name="c13::c13_soc3_hs_block_p7", unit="SecondOrderCone::get_Hs vs mul_Hs", inst="GF(7)", bounds="dim 3, all normalised w, eta, x", oracle="unpacked KKT block == operator applied when recovering the slack step", timeout=1500),
-          dict(name="c13::c13_soc5_update_scaling_sparse_p7", unit="SecondOrderCone::update_scaling / sparse_data / get_Hs / mul_Hs", inst="GF(7)", bounds="dim 5 (two symbolic tail entries)", oracle="eta^2 (D + uu' - vv') == mul_Hs", timeout=2400, mem_gb=24)],
+          dict(name="c13::c13_soc5_update_scaling_sparse_p17", unit="SecondOrderCone::update_scaling / sparse_data / get_Hs / mul_Hs", inst="GF(17)", bounds="dim 5 (two symbolic tail entries)", oracle="eta^2 (D + uu' - vv') == mul_Hs", timeout=3000, mem_gb=24)],
 }
 PROPS["C13"] = {
     "feature": "c13",
@@ -360,15 +360,13 @@ PROPS["C13"] = {
         ("c13_soc3_winv_w", dict(tier="thorough", unit="same", inst="GF(13)", bounds="dim 3", oracle="Winv (W x) == x", timeout=3600, mem_gb=20)),
         ("c13_soc3_w_winv", dict(tier="thorough", unit="same", inst="GF(13)", bounds="dim 3", oracle="W (Winv x) == x", timeout=3600, mem_gb=20)),
         ("c13_soc3_w_symmetric", dict(tier="thorough", unit="same", inst="GF(13)", bounds="dim 3", oracle="symmetric; alpha/beta form", timeout=3600, mem_gb=20)),
-        ("c13_soc5_winv_w", dict(tier="thorough", unit="same", inst="GF(13)", bounds="dim 5", oracle="Winv (W x) == x", timeout=5400, mem_gb=24)),
         ("c13_soc3_hs_dense_p7", dict(unit="SecondOrderCone::mul_Hs", inst="GF(7)", bounds="dim 3", oracle="mul_Hs == W'W", timeout=1500)),
         ("c13_soc3_hs_dense", dict(tier="thorough", unit="same", inst="GF(13)", bounds="dim 3", oracle="same", timeout=3600)),
         ("c13_soc3_hs_block_p7", dict(unit="SecondOrderCone::get_Hs (dense packed block)", inst="GF(7)", bounds="dim 3", oracle="unpacked packed-triu block == mul_Hs", timeout=1500)),
-        ("c13_soc3_hs_block", dict(tier="thorough", unit="same", inst="GF(17)", bounds="dim 3", oracle="same", timeout=3600)),
         ("c13_soc3_update_scaling", dict(unit="SecondOrderCone::update_scaling", inst="GF(13)", bounds="dim 3, all s,z with square nonzero residuals", oracle="w normalised; eta^4 = res(s)/res(z)", timeout=2400, mem_gb=20)),
         ("c13_soc5_update_scaling_sparse_p17", dict(unit="SecondOrderCone::update_scaling incl. sparse_data (u,v,d), get_Hs, mul_Hs", inst="GF(17)", bounds="dim 5 (two symbolic tail entries, the others zero)", oracle="as _p7", timeout=3000, mem_gb=24)),
         ("c13_soc5_update_scaling_sparse_p19", dict(tier="thorough", unit="same", inst="GF(19)", bounds="same", oracle="same", timeout=7200, mem_gb=24)),
-        ("c13_soc5_update_scaling_sparse_p7", dict(unit="SecondOrderCone::update_scaling incl. sparse_data (u,v,d), get_Hs, mul_Hs", inst="GF(7) (over GF(13) the nested roots of the sparse path never all exist - the harness is vacuous there, reported by the cover guard; GF(31) did not finish in an hour)", bounds="dim 5 (two symbolic tail entries, the others zero)", oracle="w normalised; eta^4 = res(s)/res(z); eta^2(D+uu'-vv') == mul_Hs; D block = eta^2 diag(d,1,..)", timeout=2400, mem_gb=24)),
+        ("c13_soc5_update_scaling_sparse_p7", dict(unit="SecondOrderCone::update_scaling incl. sparse_data (u,v,d), get_Hs, mul_Hs", inst="GF(7): every scaling point at which all nested roots exist has v = 0, so this instance decides the d and u parts only (GF(11), GF(13): no scaling point exists, vacuous; GF(17) quick / GF(19) thorough are the informative ones)", bounds="dim 5 (two symbolic tail entries, the others zero)", oracle="w normalised; eta^4 = res(s)/res(z); eta^2(D+uu'-vv') == mul_Hs; D block = eta^2 diag(d,1,..)", timeout=2400, mem_gb=24)),
         ("c13_soc3_jordan_p7", dict(unit="SecondOrderCone::circ_op/inv_circ_op/affine_ds/combined_ds_shift (_combined_ds_shift_symmetric)", inst="GF(7)", bounds="dim 3", oracle="arrow product; inverse; lambda o lambda; W^-1 ds o W dz - sigma mu e", timeout=1800)),
         ("c13_soc3_jordan", dict(tier="thorough", unit="SecondOrderCone::circ_op/inv_circ_op/affine_ds/combined_ds_shift (_combined_ds_shift_symmetric)", inst="GF(13)", bounds="dim 3", oracle="arrow product; inverse; lambda o lambda; W^-1 ds o W dz - sigma mu e", timeout=3600)),
         ("c13_nn_scaling", dict(unit="NonnegativeCone::update_scaling/get_Hs/mul_Hs/mul_W/mul_Winv/affine_ds/Ds_from_Dz_offset", inst="GF(13)", bounds="dim 2", oracle="Hs z = s; lambda^2 = s z; Winv W = I; offset = ds/z", timeout=1200)),
@@ -444,7 +442,6 @@ PROPS["C10"] = {
         ("c10_exact_nn2_1sweep", dict(stubs=True, unit=_EQ_UNIT, inst="GF(13)", bounds="cones [NN2], 1 sweep", oracle=_EQ_OR, timeout=1800, mem_gb=20)),
         ("c10_exact_nn2_2sweeps", dict(stubs=True, tier="thorough", unit=_EQ_UNIT, inst="GF(13)", bounds="cones [NN2], 2 sweeps", oracle=_EQ_OR, timeout=7200, mem_gb=24)),
         ("c10_exact_nn1_soc2_1sweep", dict(stubs=True, unit=_EQ_UNIT, inst="GF(13)", bounds="cones [NN1,SOC2], 1 sweep (rectification)", oracle=_EQ_OR, timeout=2400, mem_gb=20)),
-        ("c10_exact_zero1_soc3_2sweeps", dict(stubs=True, tier="thorough", unit=_EQ_UNIT, inst="GF(13)", bounds="cones [Zero1,SOC3], 2 sweeps", oracle=_EQ_OR, timeout=3600, mem_gb=28)),
         ("c10_disabled", dict(stubs=True, nofloat=True, unit="DefaultProblemData::equilibrate", inst="f64 every bit pattern", bounds="n=m=2", oracle="equilibrate_enable=false: P,q,A,b bit-unchanged, identity scaling", timeout=1200)),
         ("c10_zero_rows_cols", dict(stubs=True, nofloat=True, unit="DefaultProblemData::equilibrate", inst="f64", bounds="n=m=2, empty column 1 of [P;A], empty row 1 of A, 2 sweeps", oracle="d[1] == e[1] == 1 exactly", timeout=1800, mem_gb=20)),
         ("c10_bounds_pow2_2sweeps", dict(stubs=True, nofloat=True, unit=_EQ_UNIT, inst="f64: data entries are powers of two with symbolic exponent in [-40,40] (24 orders of magnitude), default bounds 1e-4 / 1e4", bounds="n=m=1, 2 Ruiz sweeps", timeout=3000, mem_gb=28,
